@@ -1166,7 +1166,7 @@ pub fn mutate(r: &mut Rng, o: &Opts, s: &mut Vec<Tok>) {
     let pool = raw_pool();
     let n = r.range(1, 3);
     for _ in 0..n {
-        match r.below(9) {
+        match r.below(10) {
             0 if !s.is_empty() => {
                 let i = r.below(s.len());
                 s.remove(i);
@@ -1208,6 +1208,25 @@ pub fn mutate(r: &mut Rng, o: &Opts, s: &mut Vec<Tok>) {
             7 => {
                 let j = r.below(s.len() + 1);
                 s.insert(j, t("--"));
+            }
+            8 => {
+                // a long name mistyped with a multi-byte first character: an em dash pasted
+                // for `--`, an accented letter in front
+                let mut longs: Vec<S> = Vec::new();
+                o.root.walk(&mut |n| {
+                    if let Some(named) = n.named() {
+                        longs.extend(named.longs.iter().copied());
+                    }
+                });
+                longs.push("help");
+                let l = *r.pick(&longs);
+                let w = match r.below(3) {
+                    0 => format!("\u{2014}{}", l),
+                    1 => format!("\u{e9}-{}", l),
+                    _ => format!("\u{2014}-{}", l),
+                };
+                let j = r.below(s.len() + 1);
+                s.insert(j, t(&w));
             }
             _ => {
                 let k = r.below(s.len() + 1);
